@@ -352,6 +352,19 @@ fn check_steps(_seed: u64) -> i32 {
             if delta <= hz.max(1) { let g = acp.number_arrivals(d(delta)); if g != src { return fail("conv::ArrivalCurvePrefix::from_arrival_bound_until", format!("{{\"T\": {}, \"J\": {}, \"horizon\": {}, \"delta\": {}}}", t, j, hz, delta), format!("{}", g), format!("{} (exact up to the horizon)", src)); } }
             if delta <= hz.max(1) && delta <= ud(cu2.min_distance(1000)) { let g = cu2.number_arrivals(d(delta)); if g != src { return fail("conv::Curve::from_arrival_bound_until", format!("{{\"T\": {}, \"J\": {}, \"horizon\": {}, \"delta\": {}}}", t, j, hz, delta), format!("{}", g), format!("{} (exact on the covered prefix)", src)); } }
         }
+        // From<Sporadic> / From<Periodic>: dominate the source everywhere, exact below the largest recorded distance
+        if n == 2 && hz == 5 {
+            let cs = match guarded(|| Curve::from(sp)) { Ok(c) => c, Err(e) => return fail("conv::Curve::from(Sporadic)", desc, e, "no panic".into()) };
+            let cov = ud(cs.min_distance(1_000_000));
+            for delta in (0..=200u64).chain([499, 500, 501, 997, 2500, 5003]) {
+                let (a, b) = (cs.number_arrivals(d(delta)), sp.number_arrivals(d(delta)));
+                if a < b || (delta < cov && a != b) { return fail("conv::Curve::from(Sporadic)", format!("{{\"T\": {}, \"J\": {}, \"delta\": {}}}", t, j, delta), format!("{}", a), format!("{} (the source)", b)); }
+            }
+            if j == 0 {
+                let pe = Periodic::new(d(t)); let cp = Curve::from(pe);
+                for delta in 0..=200u64 { let (a, b) = (cp.number_arrivals(d(delta)), pe.number_arrivals(d(delta))); if a != b { return fail("conv::Curve::from(Periodic)", format!("{{\"T\": {}, \"delta\": {}}}", t, delta), format!("{}", a), format!("{}", b)); } }
+            }
+        }
         // delta_min_iter is the dual of number_arrivals
         for (nn, x) in arrival::delta_min_iter(&sp).take(8) {
             let x = ud(x);
